@@ -164,6 +164,17 @@ impl<'a> P<'a> {
             let e = self.expr();
             self.expect(b')');
             units_src(e)
+        } else if self.eat("rtskip(") || self.eat("rtstep(") {
+            // the into-iterator bridge driven through the PROVIDED methods of `Iterator` (`skip` / `step_by` are built on
+            // `nth`), then turned back into a source
+            let step = &self.s[self.i - 7..self.i] == b"rtstep(";
+            let n = self.n();
+            self.expect(b',');
+            let e = self.expr();
+            self.expect(b')');
+            let it = sources::into_iter::IntoIter::from(e);
+            let boxed: Box<dyn Iterator<Item = Q>> = if step { Box::new(it.step_by(n)) } else { Box::new(it.skip(n)) };
+            bx(RtIt(Rc::new(RefCell::new(sources::from_iter::FromIter::from(boxed)))))
         } else if self.eat("rt(") {
             let e = self.expr();
             self.expect(b')');
@@ -278,6 +289,15 @@ impl Source for RtSrc {
     }
 }
 
+#[derive(Clone)]
+struct RtIt(Rc<RefCell<sources::from_iter::FromIter<Box<dyn Iterator<Item = Q>>>>>);
+impl Source for RtIt {
+    type Output = Q;
+    fn source(&mut self) -> Option<Q> {
+        self.0.borrow_mut().source()
+    }
+}
+
 /// a scripted source that is NOT fused: it may answer `None` and later `Some` again
 #[derive(Clone)]
 struct BurstSrc {
@@ -377,6 +397,24 @@ dyn_sink!(sinks::mean::Mean<i64>, i64);
 dyn_sink!(sinks::mean_variance::MeanVariance<i64>, i64);
 dyn_sink!(sinks::statistics::Statistics<i64>, i64);
 dyn_sink!(sinks::integrate::Integrate<i64>, i64);
+// ... at floats that keep the sign of a zero on the protocol (what a sink hands back is a sample it received)
+dyn_sink!(sinks::min::Min<Fz>, Fz);
+dyn_sink!(sinks::max::Max<Fz>, Fz);
+dyn_sink!(sinks::bounds::Bounds<Fz>, Fz);
+impl DynSink for sinks::last::Last<Fz> {
+    fn sink(&mut self, x: Val) {
+        Sink::sink(self, Fz::from_val(x))
+    }
+    fn ff(&mut self, _x: Val) -> String {
+        panic!("harness: Last is not a Filter")
+    }
+    fn fin(&self) -> String {
+        Finalize::finalize(self.clone()).r()
+    }
+    fn clone_box(&self) -> Box<dyn DynSink> {
+        Box::new(self.clone())
+    }
+}
 // ... and at the smallest machine integers
 dyn_sink!(sinks::min::Min<u8>, u8);
 dyn_sink!(sinks::max::Max<u8>, u8);
@@ -433,6 +471,10 @@ pub fn build_sink(kind: &str) -> Option<Box<dyn DynSink>> {
         "sink_meanvar_i64" => Box::new(sinks::mean_variance::MeanVariance::<i64>::default()),
         "sink_stats_i64" => Box::new(sinks::statistics::Statistics::<i64>::default()),
         "sink_integrate_i64" => Box::new(sinks::integrate::Integrate::<i64>::default()),
+        "sink_min_fz" => Box::new(sinks::min::Min::<Fz>::default()),
+        "sink_max_fz" => Box::new(sinks::max::Max::<Fz>::default()),
+        "sink_bounds_fz" => Box::new(sinks::bounds::Bounds::<Fz>::default()),
+        "sink_last_fz" => Box::new(sinks::last::Last::<Fz>::default()),
         "sink_min_u8" => Box::new(sinks::min::Min::<u8>::default()),
         "sink_max_u8" => Box::new(sinks::max::Max::<u8>::default()),
         "sink_bounds_u8" => Box::new(sinks::bounds::Bounds::<u8>::default()),
